@@ -13,7 +13,7 @@ import (
 	"github.com/mlange-42/arche/generic"
 )
 
-const nIllClasses = 15
+const nIllClasses = 16
 
 const illMarker = "illegal generic call"
 
@@ -47,7 +47,7 @@ func (g *gWorld) applyIll(op *gOp, ad *gAdapter) string {
 	var fg, fc func()
 	what := ""
 	class := op.N % nIllClasses
-	needMap := class <= 8
+	needMap := class <= 8 || class == 15
 	if needMap && (ad.NewMap == nil || ad.N == 0) {
 		return ""
 	}
@@ -116,6 +116,34 @@ func (g *gWorld) applyIll(op *gOp, ad *gAdapter) string {
 		what = fmt.Sprintf("Map%d.Add to %v with the removed entity %v as target", ad.N, lacks.h, deadT.h)
 		fg = func() { m.Add(lacks.h, deadT.h) }
 		fc = func() { g.Wc.Relations().Exchange(lacks.h, ids, nil, g.ids[relT], deadT.h) }
+	case 15:
+		// a target for a map that has no relation component: the builder it documents as its
+		// equivalent refuses a target without WithRelation
+		if relT >= 0 {
+			return ""
+		}
+		tgt := ecs.Entity{}
+		for i := range g.ents {
+			if e := g.ents[(i+op.T+len(g.ents))%len(g.ents)]; e.alive && op.Tok%2 == 0 {
+				tgt = e.h
+				break
+			}
+		}
+		switch op.Tok % 4 {
+		case 0:
+			what = fmt.Sprintf("Map%d.New(%v) although the map has no relation", ad.N, tgt)
+			fg, fc = func() { m.New(tgt) }, func() { ecs.NewBuilder(g.Wc, ids...).New(tgt) }
+		case 1:
+			what = fmt.Sprintf("Map%d.NewWith(values, %v) although the map has no relation", ad.N, tgt)
+			fg, fc = func() { m.NewWith(ptrs, tgt) }, func() { ecs.NewBuilderWith(g.Wc, comps...).New(tgt) }
+		case 2:
+			what = fmt.Sprintf("Map%d.NewBatch(3, %v) although the map has no relation", ad.N, tgt)
+			fg, fc = func() { m.NewBatch(3, tgt) }, func() { ecs.NewBuilder(g.Wc, ids...).NewBatch(3, tgt) }
+		default:
+			what = fmt.Sprintf("Map%d.NewBatchQ(3, %v) although the map has no relation", ad.N, tgt)
+			fg = func() { q := m.NewBatchQ(3, tgt); q.Base().Close() }
+			fc = func() { q := ecs.NewBuilder(g.Wc, ids...).NewBatchQ(3, tgt); q.Close() }
+		}
 	default:
 		// Map[T]: G0 (plain, type index 0) and GR0 (relation)
 		var noG0, withG0, withGR0, noGR0 *gEnt
